@@ -115,7 +115,9 @@ func runRunner(offsetSpec, initSpec string) []string {
 			w.MR.Del(h.key)
 		}(h)
 	}
-	if err := app.Start(ctx); err != nil {
+	startErr := app.Start(ctx)
+	cancel() // the start context ends when the start is over, as under fx.App.Run: nothing may go on living off it
+	if err := startErr; err != nil {
 		return []string{"start-error:" + strings.ReplaceAll(err.Error(), " ", "_")}
 	}
 	// quiescence: no ready probe in the queue, no busy worker, and the dump unchanged for 150 ms
